@@ -12,7 +12,10 @@
 
    INTERFACE
      UrlInit                 start state
-     UrlStep(u, c)           next state
+     UrlStep(u, c)           next state (exact scheme buffer; for trace validation of concrete strings)
+     UrlStepK(u, c, Known)   next state for CLOSED automata: the scheme buffer is kept only while it is a
+                             prefix of a scheme in Known, every other buffer collapses to OtherScheme, so the
+                             state space is finite and small; SchemeOf then yields a member of Known or OtherScheme
      SchemeOf(u)             <<>> if (so far / at end of input) the browser sees NO scheme (relative
                              reference), else the scheme as a lower-case symbol sequence
                              (capped: a scheme longer than SchemeCap is LongScheme)
@@ -25,7 +28,7 @@ LongScheme == <<-1>>
 UrlInit == [ph |-> "lead", sch |-> <<>>]
 IsTabOrNewline(c) == c \in {cTAB, cLF, cCR}
 IsSchemeChar(c) == IsAlnum(c) \/ c \in {cPLUS, cDASH, cDOT}
-AppendScheme(s, c) == IF s = LongScheme THEN s ELSE IF Len(s) >= SchemeCap THEN LongScheme ELSE Append(s, Lower(c))
+AppendScheme(s, c) == IF s = LongScheme \/ s = <<-1>> THEN s ELSE IF Len(s) >= SchemeCap THEN LongScheme ELSE Append(s, Lower(c))
 
 UrlStart(u, c) ==
     IF IsAlpha(c) THEN [ph |-> "scheme", sch |-> <<Lower(c)>>]
@@ -39,6 +42,13 @@ UrlStep(u, c) ==
          IF IsSchemeChar(c) THEN [u EXCEPT !.sch = AppendScheme(u.sch, c)]
          ELSE IF c = cCOLON THEN [u EXCEPT !.ph = "done"]
          ELSE [ph |-> "none", sch |-> <<>>]
+
+OtherScheme == <<-1>>
+PrefixesOf(Known) == UNION { { SubSeq(s, 1, k) : k \in 0..Len(s) } : s \in Known }
+UrlStepK(u, c, Known) ==
+    LET v == UrlStep(u, c) IN
+    IF v.ph \in {"scheme", "done"} /\ v.sch \notin PrefixesOf(Known) THEN [v EXCEPT !.sch = OtherScheme]
+    ELSE v
 
 SchemeOf(u) == IF u.ph = "done" THEN u.sch ELSE <<>>
 
